@@ -6,3 +6,4 @@ export CARGO_NET_OFFLINE=true
 mkdir -p build evidence replays
 ( cd coq && coq_makefile -f _CoqProject -o Makefile >/dev/null && timeout 3000 make -j16 >/dev/null 2>build.log || { tail -50 build.log; exit 1; } )
 ( cd harness && timeout 3000 cargo build --offline --bins 2>&1 | tail -3 )
+( cd harness_nofeat && CARGO_TARGET_DIR="$(pwd)/../build/target_nofeat" timeout 3000 cargo build --offline --bins 2>&1 | tail -3 )
